@@ -45,6 +45,9 @@ func init() {
 			{Name: "bans", N: constN(2400, 60000), Gen: genModelCase, Eval: c18Eval},
 			{Name: "option-reuse", N: constN(600, 20000), Gen: genModelCase, Eval: c18EvalReuse},
 			{Name: "after-description", N: func(string) int { return c15FollowCount() }, Gen: c15GenFollow, Eval: c18EvalAfterDescription},
+			{Name: "after-empty-annotation", N: func(string) int { return len(c18AfterAnn) * 4 * 3 }, Gen: func(r *xrand.Rand, idx int, tier string) *fw.Case {
+				return &fw.Case{Ints: map[string]int{"k": idx % len(c18AfterAnn), "a": (idx / len(c18AfterAnn)) % 4, "nl": idx / len(c18AfterAnn) / 4}, Docs: []run.Doc{{}}}
+			}, Eval: c18EvalAfterAnnotation},
 		},
 		Floors: map[string]int64{"banned_hits_checked": 2000, "unaffected_checked": 2000, "opens_projects_run": 100},
 		Post:   c18Post,
@@ -555,4 +558,47 @@ func c18EvalAfterDescription(t *fw.T, c *fw.Case) {
 		return
 	}
 	t.Distinct(kind + " after-description " + host)
+}
+
+
+// ---- a banned one-line directive on the line after an annotation that is empty (or blank, or a comment) ----
+
+// c18AfterAnn: {banned kind, the line in front (it may carry an annotation), the banned line, what follows}
+var c18AfterAnn = [][4]string{
+	{"Tags", "GET /cats", "  Tags @x", "  200 any\nTAG @x\n"},
+	{"PASTE", "GET /cats", "  PASTE @m", "MACRO @m\n(\n  200 any\n)\n"},
+	{"INCLUDE", "GET /cats", "  INCLUDE inc.jst", ""},
+	{"BaseUrl", "SERVER @s", "  BaseUrl \"https://a/\"", ""},
+	{"HTTP-response-code", "GET /cats", "  200 any", ""},
+	{"Request", "POST /cats", "  Request any", "  200 any\n"},
+	{"Version", "TYPE @t any", "INFO\n  Version 1", "  Title \"t\"\n"},
+	{"TYPE", "ENUM @e", "[1]\nTYPE @t any", ""},
+	{"Method", "URL /rpc", "  Protocol json-rpc-2.0\n  Method m", "    Params\n      {}\n"},
+	{"Protocol", "URL /rpc", "  Protocol json-rpc-2.0", "  Method m\n    Params\n      {}\n"},
+	{"TAG", "TAG @first", "TAG @second", ""},
+	{"GET", "TYPE @t any", "GET /cats", "  200 any\n"},
+}
+
+func c18EvalAfterAnnotation(t *fw.T, c *fw.Case) {
+	e := c18AfterAnn[c.Ints["k"]]
+	ann := []string{" //", " /**/", " // ", " //\t# c"}[c.Ints["a"]]
+	nl := []string{"\n", "\r\n", "\r"}[c.Ints["nl"]]
+	text := "JSIGHT 0.3\n" + e[1] + ann + "\n" + e[2] + "\n" + e[3]
+	text = strings.ReplaceAll(text, "\n", nl)
+	d := run.Doc{Files: map[string][]byte{"root.jst": []byte(text), "inc.jst": []byte("  200 any" + nl)}, Root: "root.jst"}
+	if o0 := t.Exec(d); o0.Outcome != run.Accepted {
+		t.Count("after_annotation_template_not_accepted")
+		t.Sample("after-annotation-template-not-accepted", map[string]interface{}{"doc": text, "result": describe(o0)})
+		return
+	}
+	d.Ban = []string{e[0]}
+	c.Docs = []run.Doc{d}
+	o := t.Exec(d)
+	t.Count("banned_hits_checked")
+	t.Count("banned_after_empty_annotation_checked")
+	if o.Outcome != run.Rejected || !strings.Contains(o.Msg, "directive not allowed ("+e[0]+")") {
+		t.Violation("ban-not-enforced:"+e[0]+":after-empty-annotation", fmt.Sprintf("banned %s stands on the line after an empty annotation (%q), result: %s\n%q", e[0], ann, describe(o), text))
+		return
+	}
+	t.Distinct(e[0] + " after-empty-annotation")
 }
